@@ -24,8 +24,7 @@ def gen_case(rng):
             'method': rng.choice(['largest_box', 'largest_box', 'ellipse']),
             'keypoints': [[rng.uniform(5, W - 6), rng.uniform(5, H - 6), rng.uniform(4, D - 5), rng.uniform(0, 6.2), rng.uniform(0.5, 3)] for _ in range(4)],
             'boxes': [[6.0, 7.0, 5.0, 6.0 + rng.uniform(3, 8), 7.0 + rng.uniform(3, 8), 5.0 + rng.uniform(2, 6)]]}
-    if cls == 'Rotate':
-        case['crop_to_border'] = rng.random() < 0.4      # the enlarged output frame (off by default)
+    case['crop_to_border'] = rng.random() < 0.4      # the enlarged output frame (off by default), both classes
     if cls == 'ShiftScaleRotate':
         case['scale_limit'] = rng.choice([(0.0, 0.0), (0.2, 0.4), (-0.3, -0.1)])
         case['shift_limit'] = rng.choice([0.0, 0.1])
@@ -38,7 +37,7 @@ def sweep(rng):
     out = []
     for cls in ('Rotate', 'ShiftScaleRotate'):
         for plane in ('xy', 'yz', 'xz'):
-            for crop in ((False, True) if cls == 'Rotate' else (False,)):
+            for crop in (False, True):
                 c = gen_case(rng)
                 dims = [18, 44, 26]
                 rng.shuffle(dims)
@@ -53,11 +52,11 @@ def sweep(rng):
                 c.pop('crop_to_border', None)
                 c.pop('scale_limit', None)
                 c.pop('shift_limit', None)
-                if cls == 'Rotate':
-                    c['crop_to_border'] = crop
-                else:
-                    c['scale_limit'] = rng.choice([(0.0, 0.0), (0.2, 0.4)])
-                    c['shift_limit'] = rng.choice([0.0, 0.1])
+                c['crop_to_border'] = crop
+                if cls != 'Rotate':
+                    # with the enlarged frame: a clear zoom and a clear shift (the shift is a fraction of the OUTPUT frame)
+                    c['scale_limit'] = rng.choice([(0.3, 0.5), (0.2, 0.4)]) if crop else rng.choice([(0.0, 0.0), (0.2, 0.4)])
+                    c['shift_limit'] = rng.choice([(0.15, 0.25), (-0.25, -0.15)]) if crop else rng.choice([0.0, 0.1])
                 out.append(c)
     return out
 
@@ -72,8 +71,10 @@ def run_case(case):
         t = A.Rotate(limit=(ang, ang), axes=case['plane'], interpolation=0, border_mode='constant', rotate_method=case['method'],
                      crop_to_border=bool(case.get('crop_to_border', False)), p=1.0)
     else:
-        t = A.ShiftScaleRotate(rotate_limit=(ang, ang), scale_limit=tuple(case['scale_limit']), shift_limit=case['shift_limit'],
-                               axes=case['plane'], interpolation=0, border_mode='constant', rotate_method=case['method'], p=1.0)
+        sl = case['shift_limit']
+        t = A.ShiftScaleRotate(rotate_limit=(ang, ang), scale_limit=tuple(case['scale_limit']), shift_limit=tuple(sl) if isinstance(sl, (list, tuple)) else sl,
+                               axes=case['plane'], interpolation=0, border_mode='constant', rotate_method=case['method'],
+                               crop_to_border=bool(case.get('crop_to_border', False)), p=1.0)
     pipe = A.ReplayCompose([t], keypoint_params=A.KeypointParams('xyzas', angle_in_degrees=False, remove_invisible=False),
                            bbox_params=A.BboxParams('pascal_voc_3d', min_volume=0.0))
     kps = [tuple(k) for k in case['keypoints']]
